@@ -203,6 +203,9 @@ func actionWatch(c *cli.Command, meta actionMeta, f pathFinderFunc) error {
 	slog.Info("Started HTTP server", slog.String("address", listen))
 
 	interval := c.Duration(intervalFlag)
+	if interval <= 0 {
+		return fmt.Errorf("--%s flag must be > 0", intervalFlag)
+	}
 
 	gen := config.NewPrometheusGenerator(meta.cfg, metricsRegistry)
 	if err = gen.GenerateStatic(); err != nil {
